@@ -4,6 +4,7 @@
 //!   hv shard <ID> <tier> <seed> <i> <n>        (internal)
 //!   hv one <program> [input-bytes-comma-separated]   (debug: run everything on one program)
 
+mod bcvalid;
 mod bf;
 mod child;
 mod engine;
@@ -65,6 +66,22 @@ macro_rules! dispatch {
             }
             "C17" => {
                 let $p = PP(props::c17::C17);
+                $body
+            }
+            "C09" => {
+                let $p = props::c09::C09;
+                $body
+            }
+            "C11" => {
+                let $p = props::c11::C11;
+                $body
+            }
+            "C14" => {
+                let $p = props::c14::C14;
+                $body
+            }
+            "C15" => {
+                let $p = props::c15::C15;
                 $body
             }
             "C18" => {
